@@ -1,5 +1,6 @@
 import SelenModel.Lemmas.Dfs
 import SelenModel.Lemmas.KindsAll
+import SelenModel.Lemmas.Termination
 /-
 Top-level theorems about `search` (root propagation + engine) for models whose propagators
 satisfy the contract.
@@ -226,6 +227,59 @@ theorem search_optimal (m : IModel) (h : m.WF) (o : IView) (ho : o.WF)
       obtain ⟨mm, e, hle⟩ := hall a ha
       rw [hb] at e; cases e
       rw [hx]; exact hle
+
+/-! ### termination: a fuel that always suffices -/
+
+theorem mul_le_needE (P s : Nat) : P * s ≤ needE P s := by
+  cases s with
+  | zero => simp
+  | succ s =>
+    simp only [needE]
+    have : P * (s+1) ≤ (P+2) * (s+1) := Nat.mul_le_mul_right _ (by omega)
+    omega
+
+/-- total number of declared values -/
+def size (m : IModel) : Nat := sizeN m.n m.store
+
+/-- fuel that suffices for the whole search of `m` -/
+def fuelBound (m : IModel) : Nat := m.ps.length + needE m.ps.length m.size + 1
+
+theorem store_nodup (m : IModel) (hnd : ∀ d ∈ m.doms, d.Nodup) : NodupS m.store := by
+  intro i
+  unfold store
+  by_cases hi : i < m.doms.length
+  · rw [getD_lt _ _ _ hi]; exact hnd _ (List.getElem_mem hi)
+  · rw [getD_ge _ _ _ (by omega)]; simp
+
+/-- **the search never runs out of fuel** once `fuel ≥ fuelBound m`: the fuel parameter of the
+model is a proof device, not a behavioural bound -/
+theorem search_terminates (m : IModel) (h : m.WF) (hnd : ∀ d ∈ m.doms, d.Nodup) (obj : Option IView)
+    (hobj : ∀ o, obj = some o → o.WF) (pol : Policy) (fuel : Nat) (hf : m.fuelBound ≤ fuel) :
+    (search m.n obj pol fuel m.ps m.store).outOfFuel = false := by
+  unfold search
+  have hc := m.allContract h
+  have hle := mul_le_needE m.ps.length m.size
+  unfold fuelBound at hf
+  unfold size at hle hf
+  cases hpr : propagate m.ps pol fuel (List.range m.ps.length) m.store with
+  | fail => rfl
+  | fuel =>
+    exfalso
+    refine propagate_terminates m.ps pol _ hc m.n fuel _ _ ⟨List.nodup_range, fun p hp => List.mem_range.1 hp⟩
+      (m.store_ne h) m.store_tail ?_ hpr
+    rw [List.length_range]
+    omega
+  | ok st' =>
+    simp only
+    obtain ⟨hn, hsub⟩ := m.root_node h pol fuel st' hpr
+    cases hfu : firstUnassigned m.n st' with
+    | none => rfl
+    | some pv =>
+      simp only
+      apply (explore_terminates m.n obj pol _ (closed_boolStore m.bools) hobj fuel).1 _ _ _ hn
+        (nodupS_of_sub (m.store_nodup hnd) hsub)
+      have := @needE_mono m.ps.length m.ps.length (sizeN m.n st') (sizeN m.n m.store) (Nat.le_refl _) (sizeN_mono m.n hsub)
+      omega
 
 end IModel
 end Selen
